@@ -48,6 +48,22 @@ func stdExternal(a *pta.Analysis, site ssa.CallInstruction, callee *ssa.Function
 			a.ExternalWrite(site, 0, "shared container update")
 		}
 	}
+	// sync/atomic: a store, swap, add or compare-and-swap changes what its first argument (receiver or address) points to
+	if strings.HasPrefix(name, "(*sync/atomic.") || strings.HasPrefix(name, "sync/atomic.") {
+		base := name[strings.LastIndex(name, ".")+1:]
+		for _, w := range []string{"Store", "Swap", "CompareAndSwap", "Add", "And", "Or"} {
+			if strings.HasPrefix(base, w) {
+				a.ExternalWrite(site, 0, "atomic update")
+				if strings.HasPrefix(name, "(*sync/atomic.Value).") || strings.HasPrefix(name, "(*sync/atomic.Pointer[") {
+					// the value stored outlives the call
+					for j := 1; j < len(site.Common().Args); j++ {
+						a.EscapeToWorld(site, j, name, "sync")
+					}
+				}
+				break
+			}
+		}
+	}
 	if strings.HasPrefix(name, "(*sync.Pool).Put") || strings.HasPrefix(name, "(*sync.Map).Store") || strings.HasPrefix(name, "(*sync.Map).LoadOrStore") {
 		// a value parked in a pool / shared map outlives the call: model as escape to the world
 		a.EscapeToWorld(site, 1, name, "sync")
